@@ -1,14 +1,15 @@
 #!/bin/bash
 # Re-evaluate every seeded change in seeded/ against the quick check of its own property (and the sibling checks recorded earlier).
-# Usage: ./seed_eval_all.sh            (prints one status line per change; non-zero exit if a change that was caught is now missed)
+# Usage: ./seed_eval_all.sh [C01 C02 ...]   (all properties when none is given; build/tests/demonstration of a confirmed change are not repeated; prints one status line per change; non-zero exit if a change that was caught is now missed)
 cd "$(dirname "$0")"
 bad=0
 for d in seeded/*/; do
   n=$(basename "$d"); p=${n%%-*}
   [ -f "$d/patch.diff" ] || continue
+  if [ $# -gt 0 ]; then case " $* " in *" $p "*) ;; *) continue;; esac; fi
   checks=$(python3 -c "import json,sys; m=json.load(open('$d/meta.json')); print(','.join(sorted(set([m['breaks_property']]+m.get('caught_by',[])))))")
   was=$(python3 -c "import json; print(json.load(open('$d/meta.json'))['status'])")
-  out=$(python3 seed_eval.py "$d" "$p" "$n" --checks "$checks" 2>&1 | tail -2 | head -1 | cut -c1-160)
+  out=$(python3 seed_eval.py "$d" "$p" "$n" --checks "$checks" --skip-baseline 2>&1 | tail -2 | head -1 | cut -c1-160)
   now=$(python3 -c "import json; print(json.load(open('$d/meta.json'))['status'])")
   echo "$n was=[$was] now=[$now]"
   case "$was" in CAUGHT*) case "$now" in CAUGHT*) ;; *) bad=1; echo "  REGRESSION: $n";; esac;; esac
